@@ -36,6 +36,10 @@ def _reset_guard():
     TS = _store_cls()
     if hasattr(TS, 'active_in_thread'):
         TS.active_in_thread = None
+    # an owner record that ended up on a subclass (shadowing the class attribute) is removed too
+    sub = getattr(globals().get('_constructor'), 'sub', None)
+    if sub is not None and 'active_in_thread' in vars(sub):
+        delattr(sub, 'active_in_thread')
 
 
 class LineScheduler:
@@ -212,6 +216,10 @@ def _constructor(op, tmp):
     TS = _store_cls()
     if op == 'c':
         return TS.create()
+    if op == 'cs':  # through a subclass: the owner record belongs to the process, not to the class used
+        if not hasattr(_constructor, 'sub'):
+            _constructor.sub = type('VerifSubclassStore', (TS,), {})
+        return _constructor.sub.create()
     if op == 'cf':  # file-backed: nothing is written before the first add, so HDF5 is not entered
         import uuid
 
@@ -297,7 +305,7 @@ def run_script(script, tmp) -> list[dict]:
 def run(ctx: Ctx):
     ctx.rule = (
         'schedules = all interleavings (TLC-enumerated) of the N guard-region line events of two threads each '
-        'constructing a first store, N discovered by a solo dry run; plus sequential scripts over {create in memory, create file-backed, close, 3 kinds of failing constructor} x 2 threads: '
+        'constructing a first store, N discovered by a solo dry run; plus sequential scripts over {create in memory, create file-backed, create through a subclass, close, 3 kinds of failing constructor} x 2 threads: '
         'every StoreGuard behaviour of length 3 (4 thorough), random walks of length 7, 5 hand-written orders; '
         'non-trivial = schedule in which both threads are inside the guard region at the same time'
     )
